@@ -13,6 +13,7 @@ Section C10.
      other properties' theorems speak about. *)
   Theorem C10_programs_are_the_handlers :
     (forall fuel st f rx n now, (13 <= fuel)%nat ->
+       (forall r, ds_row st = Some r -> mic_ok E f (rx_raw rx) (load st r) = true) ->   (* the device whose key verifies the frame *)
        prun apps fuel st (uplink_prog E D f rx n now) [] = l_uplink E D apps st f rx n now) /\
     (forall fuel cfg st f rx an na, (11 <= fuel)%nat ->
        prun apps fuel st (join_prog E D cfg f rx an na) [] = join_local E D cfg apps st f rx an na).
